@@ -29,13 +29,13 @@ import (
 // account storage, capabilities, contracts, keys) is dumped before and after.
 
 const c07Contract = `access(all) contract W {
-  access(all) struct T { access(all) var a: [Int]; init() { self.a = [1,2] } }
+  access(all) struct T { access(all) var a: [Int]; view init() { self.a = [1,2] } }
   access(all) struct S {
     access(all) var n: Int
     access(all) var a: [Int]
     access(all) var d: {String: Int}
     access(all) var t: T
-    init() { self.n = 5; self.a = [1,2,3]; self.d = {"a": 1}; self.t = T() }
+    view init() { self.n = 5; self.a = [1,2,3]; self.d = {"a": 1}; self.t = T() }
     access(all) fun setN(_ v: Int) { self.n = v }
     access(all) view fun getN(): Int { return self.n }
   }
@@ -139,7 +139,7 @@ func c07Paths() []c07Path {
 		{Name: "deref-inline", Type: "arr", Params: []string{"p: " + aref}, Args: []string{"&GA as " + aref}, Place: "(*p)"},
 		{Name: "fresh-local", Type: "arr", Setup: []string{"var l = [1,2,3]"}, Place: "l", Var: true},
 		{Name: "storage-borrow", Type: "arr", Params: []string{"acct: " + c07AcctType}, Args: []string{"acct"}, Place: "acct.storage.borrow<" + aref + ">(from: /storage/a)!"},
-		{Name: "any-cast", Type: "arr", Params: []string{"anyp: AnyStruct"}, Args: []string{"&GA as " + aref}, Place: "(anyp as! " + aref + ")"},
+		{Name: "reference-downcast", Type: "arr", Params: []string{"anyp: auth(Mutate) &AnyStruct"}, Args: []string{"&GA as " + aref}, Place: "(anyp as! " + aref + ")"},
 		{Name: "capability-borrow", Type: "arr", Params: []string{"acct: " + c07AcctType}, Args: []string{"acct"}, Place: "acct.storage.copy<Capability<" + aref + ">>(from: /storage/cap)!.borrow()!"},
 		{Name: "view-function-result", Type: "arr", Place: "refGA()"},
 		{Name: "get-auth-account", Type: "arr", Place: "getAuthAccount<auth(Storage) &Account>(0x1).storage.borrow<" + aref + ">(from: /storage/a)!"},
@@ -515,7 +515,7 @@ func (a *c07Alphabet) render(c c07Cand, n int) (decl string, ok bool) {
 		w("", "let x = X"+N+"("+as+")", "", "")
 	case "closure":
 		fmt.Fprintf(&sb, "access(all) fun w%s(_ acct: %s) { %svar cap = [1,2,3]; var capN = 5; var capD = {\"a\": 1}; var capS = W.S()\n  let fn = view fun (%s): Int { %s; return 0 }\n  log(\"@L\"); %slog(cap); log(capN); log(capD); log(capS); log(\"@C\"); fn(%s); log(\"@L\"); %slog(cap); log(capN); log(capD); log(capS); log(\"@E\"); %s}\n",
-			N, c07AcctType, resSetup, unlabel(ps), bs, resDump, strings.Join(args, ", "), resDump, resEnd)
+			N, c07AcctType, resSetup, unlabel(params), bs, resDump, strings.Join(args, ", "), resDump, resEnd)
 	case "pre", "post":
 		fmt.Fprintf(&sb, "access(all) fun v%s(%s): Int { %s { ig(%s) } return 1 }\n", N, ps, c.Ctx, bs)
 		w("", "v"+N+"("+as+")", "", "")
@@ -532,13 +532,10 @@ func (a *c07Alphabet) render(c c07Cand, n int) (decl string, ok bool) {
 }
 
 // unlabel turns `p: T` parameter lists into `_ p: T` for closures (called without labels).
-func unlabel(ps string) string {
-	if ps == "" {
-		return ps
-	}
-	parts := strings.Split(ps, ", ")
-	for i := range parts {
-		parts[i] = "_ " + parts[i]
+func unlabel(params []string) string {
+	parts := make([]string, len(params))
+	for i := range params {
+		parts[i] = "_ " + params[i]
 	}
 	return strings.Join(parts, ", ")
 }
@@ -794,11 +791,11 @@ func c07Process(env *mc.Env, a *c07Alphabet, cands []c07Cand) {
 		}
 		if strings.HasPrefix(cls, "aborted") {
 			// the operation failed at run time in both engines for a reason of its own: nothing was mutated that we can see, nothing to judge
-			env.R.Class("accepted-but-aborts", func() any { return cc.id() + ": " + detail })
+			env.R.Class("accepted-but-"+cls, func() any { return cc.id() + ": " + detail })
 			continue
 		}
 		d, _ := a.render(c, 0)
-		env.R.Violation(c.Ctx+"|"+c.PType+"/"+c.Path+"|"+c.Op+"|"+cls, c, detail+"\n"+d)
+		env.R.Violation(c07Sig(c, cls), c, detail+"\n"+d)
 	}
 }
 
@@ -815,13 +812,33 @@ func c07JudgeSingle(a *c07Alphabet, c c07Cand) (class, detail string) {
 			detail += engineName(vm) + ": " + vs[0].Detail + " || "
 		}
 	}
-	if cls[0] == "" && cls[1] == "" {
-		return "", ""
+	// an engine on which the candidate fails at run time (its own abort, or the VM cannot link a
+	// built-in member) shows no effect of the view context: not judged on that engine
+	judged := false
+	for i := range cls {
+		if cls[i] == "aborted" || cls[i] == "not-reached" {
+			cls[i] = "aborts"
+		} else if cls[i] != "" {
+			judged = true
+		}
 	}
-	if cls[0] == "aborted" && cls[1] == "aborted" {
-		return "aborted", detail
+	if !judged {
+		if cls[0] == "" && cls[1] == "" {
+			return "", ""
+		}
+		return "aborted:interp:" + orOK(cls[0]) + ",vm:" + orOK(cls[1]), detail
 	}
 	return "interp:" + orOK(cls[0]) + ",vm:" + orOK(cls[1]), detail
+}
+
+// c07Sig: context | access path | operation | failure class. An event that
+// comes from an emit *statement* accepted inside a view context is one
+// structural class whatever the context.
+func c07Sig(c c07Cand, cls string) string {
+	if strings.Contains(cls, "unexpected-event") && (c.Op == "emit" || strings.HasSuffix(c.Op2, "/emit")) {
+		return "emit-statement-accepted-in-view-context|" + cls
+	}
+	return c.Ctx + "|" + c.PType + "/" + c.Path + "|" + c.Op + "|" + cls
 }
 
 func orOK(s string) string {
@@ -838,7 +855,7 @@ func c07TxSource(a *c07Alphabet, c c07Cand) (string, bool) {
 	if !ok || c07Globals.MatchString(d) {
 		return "", false // uses script globals, which a transaction cannot declare
 	}
-	src := "import W from 0x1\naccess(all) event E(x: Int)\naccess(all) view fun ig(_ x: AnyStruct?): Bool { return true }\naccess(all) view fun pure(): Bool { return true }\n" + d +
+	src := "import W from 0x1\naccess(all) view fun ig(_ x: AnyStruct?): Bool { return true }\naccess(all) view fun pure(): Bool { return true }\n" + d +
 		"transaction { prepare(acct: " + c07AcctType + ") { w0(acct) } }\n"
 	return src, true
 }
@@ -923,7 +940,7 @@ func runC07(env *mc.Env) {
 			case len(res.Writes) > 0 || before != after:
 				env.R.Violation(c.Ctx+"|"+c.PType+"/"+c.Path+"|"+c.Op+"|ledger-write-"+engineName(vm), c07TxCase{c}, fmt.Sprintf("%d SetValue calls by a transaction that only runs the view context: %v\n%s", len(res.Writes), writeKeys(res.Writes), src))
 			case len(res.Events) != nev:
-				env.R.Violation(c.Ctx+"|"+c.PType+"/"+c.Path+"|"+c.Op+"|event-"+engineName(vm), c07TxCase{c}, fmt.Sprintf("events %v\n%s", rt.EventStrings(res.Events), src))
+				env.R.Violation(c07Sig(c, "tx-unexpected-event"), c07TxCase{c}, fmt.Sprintf("%s: events %v\n%s", engineName(vm), rt.EventStrings(res.Events), src))
 			default:
 				env.R.Class("tx-no-ledger-write/"+c.Ctx, func() any { return c.id() })
 				env.R.Nontrivial("tx|" + c.id())
@@ -980,7 +997,7 @@ func replayC07(env *mc.Env, raw json.RawMessage) (bool, string) {
 		return false, err.Error()
 	}
 	cls, detail := c07JudgeSingle(a, c)
-	return cls != "" && cls != "aborted", cls + ": " + detail
+	return cls != "" && !strings.HasPrefix(cls, "aborted"), cls + ": " + detail
 }
 
 func init() {
